@@ -43,6 +43,12 @@ func (g *G) fresh(prefix string) string {
 	return fmt.Sprintf("%s!%d", prefix, g.freshN)
 }
 
+func (g *G) freshCount() int {
+	g.mu.Lock()
+	defer g.mu.Unlock()
+	return g.freshN
+}
+
 func (g *G) negID(key string) int {
 	g.mu.Lock()
 	defer g.mu.Unlock()
@@ -166,6 +172,11 @@ type Exec struct {
 	dryBase  map[string]Term
 	dryGhost map[string]Term
 	drySorts map[string]Sort
+	dryIdx   map[string][]string
+	dryWhole map[string]bool
+	dryStart int
+	lastDryIdx   map[string][]string
+	lastDryWhole map[string]bool
 }
 
 type execAbort struct{ msg string }
@@ -630,6 +641,26 @@ func (ex *Exec) assumeWF(s *State, c Term, t types.Type) {
 		}
 		ex.assumeRefOK(s, c)
 	case SIface:
+		// interface values are canonical (MakeInterface builds them so): a
+		// string payload has no ref/bits, an integer payload no ref/string
+		empty := Term{"str_empty", SStr}
+		for _, bk := range []types.BasicKind{types.String, types.Uint8, types.Uint16, types.Uint32, types.Uint64, types.Int, types.Int64, types.Uint, types.Bool} {
+			bt := types.Typ[bk]
+			tag := Eq(ITag(c), IntLit(int64(ex.g.tags.tag(bt))))
+			if bk == types.String {
+				s.assume(Implies(tag, And(Eq(IRef(c), TNilR), Eq(IBV(c), BVLit(0, 64)))))
+				continue
+			}
+			w := basicWidth(bt)
+			if bk == types.Bool {
+				w = 1
+			}
+			bound := TTrue
+			if w < 64 {
+				bound = BVUle(IBV(c), BVLit((uint64(1)<<uint(w))-1, 64))
+			}
+			s.assume(Implies(tag, And(Eq(IRef(c), TNilR), Eq(IStr(c), empty), bound)))
+		}
 		// payload refs may be negative (package-level sentinels, functions)
 		s.assume(And(IntLt(IRef(c), ex.allocFrontier(s)), IntLe(IntLit(0), ITag(c)),
 			BVUle(StrLen(IStr(c)), BVLit(1<<40, 64)),
@@ -887,7 +918,6 @@ func (ex *Exec) loadGlobal(s *State, g *ssa.Global) Val {
 			// package-level sentinel errors: non-nil, pairwise distinct
 			// (identity = a per-global negative ref), never reassigned
 			id := IntLit(int64(-ex.g.negID("global:" + name)))
-			s.Asserts = s.Asserts[:len(s.Asserts)-1] // drop WF (iref >= 0)
 			s.assume(And(Not(Eq(ITag(c), IntLit(0))), Eq(IRef(c), id)))
 			ex.usedAssume["A-SENTINEL: package-level error variables are non-nil, distinct and never reassigned"] = true
 		}
@@ -1362,6 +1392,12 @@ func (ex *Exec) doTypeAssert(s *State, in *ssa.TypeAssert) Val {
 		}
 		return ex.ifacePayload(s, i, in.AssertedType)
 	}
+	if _, isPtr := in.AssertedType.Underlying().(*types.Pointer); isPtr {
+		// interface values never hold typed nil pointers (enforced at every
+		// MakeInterface in /repo: obligation ifacenonnil; A-TYPEDNIL for the rest)
+		s.assume(Implies(cond, Not(Eq(IRef(i), TNilR))))
+		ex.usedAssume["A-TYPEDNIL: interface values reaching /repo code from outside hold no typed nil pointers (enforced for values created in /repo)"] = true
+	}
 	if !in.CommaOk {
 		ex.panicObl(s, in, "typeassert", cond)
 		return payload()
@@ -1603,6 +1639,9 @@ func (ex *Exec) initialState() *State {
 	if ex.con != nil {
 		env := ex.rootEnv(s, nil)
 		for _, r := range ex.con.Requires {
+			s.assume(ex.evalBool(env, r.Expr))
+		}
+		for _, r := range ex.con.Invariants {
 			s.assume(ex.evalBool(env, r.Expr))
 		}
 		// vacuity guard: the precondition must be satisfiable
